@@ -179,6 +179,23 @@ impl<S, K: Clone> QueueInner<S, K> {
 //@ end
 }
 
+pub trait Send {}
+pub trait Sync {}
+impl<S, K: Clone> StreamWaker<S, K> {
+    pub closed spec fn q(&self) -> QueueInner<S, K> { self.inner.inner }
+// a stream's waker fires: its ready event is queued and the waiting task (if any) is woken and forgotten
+//@ item src/fair_queue.rs :: impl<S, K> ArcWake for StreamWaker<S, K> where S: Send, K: Clone + Send + Sync, / fn wake_by_ref
+//@ name StreamWaker::wake_by_ref
+//@ inherent
+//@ param-mut arc_self
+//@ spec
+//@|        ensures
+//@|            final(arc_self).q().rq() == old(arc_self).q().rq() + 1,
+//@|            final(arc_self).q().wk() is None,
+//@|            final(arc_self).q().sv() == old(arc_self).q().sv(),
+//@ end
+}
+
 /// every stream of `m0` is still registered in `m1` under the same key with at least what it had yielded,
 /// except the ones in `ended`
 pub open spec fn streams_kept<S: Stream, K>(m0: Map<K, Pin<Box<S>>>, m1: Map<K, Pin<Box<S>>>) -> bool {
